@@ -1,6 +1,7 @@
 import St4sd.Model.Layer
 import St4sd.Lemmas.C15Assoc
 import St4sd.Lemmas.C15Sort
+import St4sd.Lemmas.C15Dsl
 /-!
 # C15 — Loading a package is deterministic
 
@@ -8,6 +9,12 @@ The order sensitive algorithms of package loading (`Model/Layer.lean`) are prove
 enumeration orders that the process does not control, and the layering of user variable files is proved to
 be "in the order given, the last one winning".  Independence of CPython's hash randomisation itself cannot
 be a theorem about this model; it is established by the cross-process comparison of `harness/c15.py`.
+
+DSL 2.0 packages (`Model/DslLoad.lean`): the de-duplication of component environments into `env0, env1, …` is
+proved to be a function of every environment *as a mapping* (`env_dedup_perm_invariant`,
+`env_dedup_mapping_only`, `env_same_name_iff`, `env_identity_determines_entries`), and the `-I, -II, …` numbering
+of duplicate step names a function of the visiting order only (`dup_naming_visit_order_only`,
+`dup_naming_prefix_stable`, `dup_naming_first_free`, `dup_names_distinct`).
 
 The model of `loadVars` is the *repaired* conf.py (fixes/C15-variable-files-order.diff); the code before the
 repair is `loadVarsOld` (see `Witness/C15.lean`).
@@ -272,6 +279,139 @@ order of the entries of any dictionary nor on the order of the items of any list
 theorem serialize_perm_invariant (a b : Tree) (h : Reordered a b) (hwf : WF a) : serialize a = serialize b :=
   (reordered_main h hwf).2.1
 
+
+/-! ### DSL 2.0: environments are de-duplicated as mappings, duplicate names follow the visiting order -/
+
+section Dsl
+open St4sd.DslLoad
+
+/-- two lists of the same length whose items are pairwise related -/
+inductive ListRel {α β : Type} (R : α → β → Prop) : List α → List β → Prop
+  | nil : ListRel R [] []
+  | cons {a : α} {b : β} {l : List α} {l' : List β} : R a b → ListRel R l l' → ListRel R (a :: l) (b :: l')
+
+/-- the same environment written with its entries in another order (a Python `dict` has no repeated key) -/
+inductive EnvReordered : CEnv → CEnv → Prop
+  | unset : EnvReordered .unset .unset
+  | dict {e e' : Env} : e.Perm e' → (e.map Prod.fst).Nodup → EnvReordered (.dict e) (.dict e')
+
+/-- the same environment as a mapping: every key reads the same value (`None` included) -/
+inductive EnvSameMapping : CEnv → CEnv → Prop
+  | unset : EnvSameMapping .unset .unset
+  | dict {e e' : Env} : (e.map Prod.fst).Nodup → (e'.map Prod.fst).Nodup → (∀ k, e.lookup k = e'.lookup k) →
+      EnvSameMapping (.dict e) (.dict e')
+
+/-- registered environments: same names, same mappings -/
+def SameRegistered (a b : List (Nat × Env)) : Prop :=
+  ListRel (fun x y => x.1 = y.1 ∧ x.2.Perm y.2) a b
+
+/-- **env_dedup_perm_invariant.**  Given the order of the components, permuting the entries of any of their
+environments changes neither the partition of the components into environments nor the names assigned
+(`command.environment` of every component is the same), nor the table `known_environments`, nor — as
+mappings — the environments registered under the names `env0, env1, …`. -/
+theorem env_dedup_perm_invariant (cs cs' : List CEnv) (hr : ListRel EnvReordered cs cs') (known : Known) :
+    assignEnvs known cs = assignEnvs known cs' ∧ knownAfter known cs = knownAfter known cs' ∧
+      SameRegistered (registered known cs) (registered known cs') := by
+  unfold assignEnvs knownAfter registered SameRegistered
+  induction hr generalizing known with
+  | nil => exact ⟨rfl, rfl, .nil⟩
+  | @cons c c' r r' hc _ ih =>
+    cases hc with
+    | unset =>
+      simp only [assignEnvsWith, knownAfterWith, registeredWith]
+      obtain ⟨h1, h2, h3⟩ := ih known
+      exact ⟨by rw [h1], h2, h3⟩
+    | @dict e e' hp hnd =>
+      have hh : hashEnv e = hashEnv e' := hashEnv_perm e e' hp hnd
+      have hemp : e.isEmpty = e'.isEmpty := by
+        cases e <;> cases e' <;> simp_all
+      simp only [assignEnvsWith, knownAfterWith, registeredWith, ← hh, ← hemp]
+      by_cases he : e.isEmpty = true
+      · simp only [he, if_true]
+        obtain ⟨h1, h2, h3⟩ := ih known
+        exact ⟨by rw [h1], h2, h3⟩
+      · simp only [he, Bool.false_eq_true, if_false]
+        cases hl : known.lookup (hashEnv e) with
+        | some i =>
+          obtain ⟨h1, h2, h3⟩ := ih known
+          exact ⟨by rw [h1], h2, h3⟩
+        | none =>
+          obtain ⟨h1, h2, h3⟩ := ih ((hashEnv e, known.length) :: known)
+          exact ⟨by rw [h1], h2, ListRel.cons ⟨rfl, hp⟩ h3⟩
+
+/-- **env_dedup_mapping_only.**  The de-duplication reads every environment as a mapping: two sequences of
+components whose environments are pairwise the same mapping (whatever the order in which each was written)
+get the same environment names. -/
+theorem env_dedup_mapping_only (cs cs' : List CEnv) (hm : ListRel EnvSameMapping cs cs') :
+    assignEnvs [] cs = assignEnvs [] cs' ∧ SameRegistered (registered [] cs) (registered [] cs') := by
+  have hr : ListRel EnvReordered cs cs' := by
+    induction hm with
+    | nil => exact .nil
+    | cons hc _ ih =>
+      refine .cons ?_ ih
+      cases hc with
+      | unset => exact .unset
+      | dict h1 h2 hk => exact .dict (perm_of_same_mapping _ _ h1 h2 hk) h1
+  exact ⟨(env_dedup_perm_invariant cs cs' hr []).1, (env_dedup_perm_invariant cs cs' hr []).2.2⟩
+
+/-- **env_same_name_iff.**  The partition: two components with non-empty environments share an environment
+name exactly when their environments have the same identity (`hash_environment`) … -/
+theorem env_same_name_iff (cs : List CEnv) (e e' : Env) (n n' : EnvName)
+    (h1 : (CEnv.dict e, n) ∈ cs.zip (assignEnvs [] cs)) (h2 : (CEnv.dict e', n') ∈ cs.zip (assignEnvs [] cs))
+    (he : e ≠ []) (he' : e' ≠ []) : n = n' ↔ hashEnv e = hashEnv e' := by
+  obtain ⟨i, rfl, hi⟩ := name_is_index hashEnv [] cs e n h1 he
+  obtain ⟨i', rfl, hi'⟩ := name_is_index hashEnv [] cs e' n' h2 he'
+  have ok := knownOK_after hashEnv [] cs knownOK_nil
+  constructor
+  · intro hn
+    simp only [EnvName.env.injEq] at hn
+    subst hn
+    exact ok.2 _ _ _ hi hi'
+  · intro hh
+    rw [hh] at hi
+    rw [hi] at hi'
+    simp only [Option.some.injEq] at hi'
+    rw [hi']
+
+/-- … and that identity is exactly the set of entries whose value is not `None`: environments that share a name
+set the same variables to the same values. -/
+theorem env_identity_determines_entries (e e' : Env) (hh : hashEnv e = hashEnv e') (k v : S) :
+    (k, some v) ∈ e ↔ (k, some v) ∈ e' := by
+  rw [← mem_hashEnv, ← mem_hashEnv, hh]
+
+/-- **dup_naming_visit_order_only.**  The `-I, -II, …` numbering of duplicate step names and the naming of
+the environments read, of every visited component instance, its step name and its environment only, in the
+order of the visit: two visits that agree on these give the same names, whatever the locations and the templates
+of the instances. -/
+theorem dup_naming_visit_order_only (cs cs' : List Inst)
+    (hs : cs.map Inst.stepName = cs'.map Inst.stepName) : loadNames cs = loadNames cs' := by
+  unfold loadNames; rw [hs]
+
+theorem env_naming_visit_order_only (cs cs' : List Inst)
+    (hs : cs.map Inst.env = cs'.map Inst.env) : loadEnvs cs = loadEnvs cs' ∧ loadRegistered cs = loadRegistered cs' := by
+  unfold loadEnvs loadRegistered; rw [hs]; exact ⟨rfl, rfl⟩
+
+/-- **dup_naming_prefix_stable.**  The name of an instance depends only on the instances visited before it:
+the names of a prefix of the visit are the names that the prefix gets on its own. -/
+theorem dup_naming_prefix_stable (l r : List S) :
+    (assignNames [] (l ++ r)).take l.length = assignNames [] l := by
+  rw [assignNames_append, List.take_left' (assignNames_length [] l)]
+
+/-- **dup_naming_first_free.**  An instance is given the first of the candidates `s, s-I, s-II, …` whose full name
+`(stage, name)` is not yet in use. -/
+theorem dup_naming_first_free (used : List FullName) (s : S) (fuel : Nat) (st : Nat) (n : S)
+    (hp : pick used s fuel 0 = .named st n) :
+    (st, n) ∉ used ∧ ∃ j, parseName (cand s j) = some (st, n) ∧
+      ∀ i, i < j → ∃ fn, parseName (cand s i) = some fn ∧ fn ∈ used := by
+  obtain ⟨h1, j, _, h2, h3⟩ := pick_named used s fuel 0 st n hp
+  exact ⟨h1, j, h2, fun i hi => h3 i (Nat.zero_le _) hi⟩
+
+/-- **dup_names_distinct.**  No two instances get the same full name. -/
+theorem dup_names_distinct (steps : List S) : (namedOnly (assignNames [] steps)).Nodup :=
+  (namedOnly_fresh [] steps).1
+
+end Dsl
+
 /-! ### non-vacuity -/
 
 private def fA : Vars := [((none, "v".toList), "from-a".toList), ((some 1, "s".toList), "a1".toList)]
@@ -285,5 +425,27 @@ example : WF (.dcons "b".toList (.prim "1".toList) (.dcons "a".toList (.lcons "y
   simp [WF, dkeys]
 example : serialize (.dcons "b".toList (.prim "1".toList) (.dcons "a".toList (.prim "2".toList) .dnil))
     = serialize (.dcons "a".toList (.prim "2".toList) (.dcons "b".toList (.prim "1".toList) .dnil)) := by decide
+
+section DslExamples
+open St4sd.DslLoad
+private def envAB : Env := [("ALPHA".toList, some "1".toList), ("BETA".toList, some "/opt/bin".toList)]
+private def envBA : Env := [("BETA".toList, some "/opt/bin".toList), ("ALPHA".toList, some "1".toList)]
+private def envZ : Env := [("Z".toList, some "9".toList), ("U".toList, none)]
+
+example : ListRel EnvReordered [.dict envAB, .unset, .dict envZ, .dict envAB] [.dict envBA, .unset, .dict envZ, .dict envAB] :=
+  .cons (.dict (List.Perm.swap _ _ _) (by decide)) (.cons .unset (.cons (.dict (List.Perm.refl _) (by decide))
+    (.cons (.dict (List.Perm.refl _) (by decide)) .nil)))
+example : assignEnvs [] [.dict envAB, .unset, .dict envZ, .dict envBA, .dict []] = [.env 0, .null, .env 1, .env 0, .noneLit] := by
+  decide
+example : registered [] [.dict envAB, .unset, .dict envZ, .dict envBA, .dict []] = [(0, envAB), (1, envZ)] := by decide
+example : loadNames [⟨["entry-instance".toList, "work".toList], "c-a".toList, .unset⟩,
+      ⟨["entry-instance".toList, "inner".toList, "work".toList], "c-b".toList, .dict envAB⟩,
+      ⟨["entry-instance".toList, "work-I".toList], "c-a".toList, .unset⟩,
+      ⟨["entry-instance".toList, "other".toList, "stage1.work".toList], "c-a".toList, .unset⟩,
+      ⟨["entry-instance".toList, "step2".toList], "c-a".toList, .unset⟩]
+    = [.named 0 "work".toList, .named 0 "work-I".toList, .named 0 "work-I-I".toList, .named 1 "work".toList, .invalid] := by
+  decide
+example : pick [(0, "work".toList), (0, "work-I".toList)] "work".toList 3 0 = .named 0 "work-II".toList := by decide
+end DslExamples
 
 end St4sd.C15
